@@ -849,8 +849,15 @@ def _install_dummy_finder():
             del sys.modules[name]
 
 
+class _ModelModule(types.ModuleType):
+    def __getattr__(self, n):
+        if n.startswith("__"):
+            raise AttributeError(n)
+        raise OutOfReach(f"library attribute {self.__name__}.{n} is not modelled")
+
+
 def _mod(name, **attrs):
-    m = types.ModuleType(name)
+    m = _ModelModule(name)
     m.__dict__.update(attrs)
     m.__path__ = []
     return m
@@ -877,7 +884,10 @@ def random_split(key, num=2):
 
 def random_permutation(key, n):
     """some bijection of range(n): uninterpreted function with inverse (axioms via PERM_AXIOMS)"""
-    used("random.permutation (an arbitrary bijection of range(L))")
+    used("random.permutation (an arbitrary bijection of range(L), a function of the key)")
+    ck = (id(key) if not isinstance(key, (tuple, str, int)) else key, str(n))
+    if ck in _PERM_CACHE:
+        return _PERM_CACHE[ck]
     name = sym.fresh_name("perm")
     f = z3.Function(name, z3.IntSort(), z3.IntSort())
     finv = z3.Function(name + "_inv", z3.IntSort(), z3.IntSort())
@@ -894,10 +904,13 @@ def random_permutation(key, n):
                 sym.CTX.path.append(a_)
         return t
 
-    return SArray([d], elem, "int")
+    out = SArray([d], elem, "int")
+    _PERM_CACHE[ck] = out
+    return out
 
 
 PERMS = []
+_PERM_CACHE = {}
 
 
 def random_uniform(key, shape=(), minval=0.0, maxval=1.0, **k):
